@@ -2,20 +2,19 @@ package pilosa
 
 // C10 — Block checksums always reflect current block contents.
 // Histories of every fragment write path interleaved with Blocks() (which fills the checksum cache)
-// on a real file-backed fragment; oracle = checksums recomputed from the bit model by an independent
-// implementation of the block hash (xxhash64 over big-endian positions, ascending). Since the
-// reported checksum is compared with a pure function of the model contents, two replicas report
-// equal checksums exactly when their model blocks are equal (up to hash collisions).
+// on a real file-backed fragment; oracle = the checksums the same code reports for a CLEAN fragment that
+// holds exactly the model's bits (a replica that received the bits directly). No hash function is
+// re-implemented: the statement fixes none. Different block contents must give different checksums
+// (collisions among all contents seen are reported).
 
 import (
 	"context"
-	"encoding/binary"
 	"fmt"
 	"sort"
 	"strings"
+	"sync"
 	"testing"
 
-	"github.com/cespare/xxhash"
 	"github.com/pilosa/pilosa/internal/vx"
 )
 
@@ -56,28 +55,66 @@ func (in *c10Inst) set(b vxBit) {
 	in.model[b] = true
 }
 
+// c10Expected: "the checksum of the bits currently stored in that block" is whatever the code under
+// test reports for a CLEAN fragment holding exactly the model's bits (built by plain setBit calls, no
+// checksum ever cached before). The statement fixes no hash function, so none is re-implemented here:
+// a replica that went through the history and a replica that received the same bits directly must
+// report the same checksums, and different block contents must not (up to hash collisions, which
+// c10Injective watches for).
+var (
+	c10RefMu    sync.Mutex
+	c10RefCache = map[string]string{}
+	c10SumOwner = map[string]string{} // block checksum -> block contents that produced it
+)
+
 func c10Expected(m map[vxBit]bool) string {
-	pos := make([]uint64, 0, len(m))
+	key := vxModelBits(m)
+	c10RefMu.Lock()
+	if v, ok := c10RefCache[key]; ok {
+		c10RefMu.Unlock()
+		return v
+	}
+	c10RefMu.Unlock()
+	ref := vxOpenFragment(vxKindSet, 0, 0, "", false)
+	bits := make([]vxBit, 0, len(m))
 	for b, ok := range m {
 		if ok {
-			pos = append(pos, b.row*ShardWidth+b.col%ShardWidth)
+			bits = append(bits, b)
 		}
 	}
-	sort.Slice(pos, func(i, j int) bool { return pos[i] < pos[j] })
-	var sb strings.Builder
-	i := 0
-	for i < len(pos) {
-		blk := pos[i] / (HashBlockSize * ShardWidth)
-		h := xxhash.New()
-		var buf [8]byte
-		for i < len(pos) && pos[i]/(HashBlockSize*ShardWidth) == blk {
-			binary.BigEndian.PutUint64(buf[:], pos[i])
-			h.Write(buf[:])
-			i++
+	sort.Slice(bits, func(i, j int) bool {
+		if bits[i].row != bits[j].row {
+			return bits[i].row < bits[j].row
 		}
-		fmt.Fprintf(&sb, "%d:%x ", blk, h.Sum(nil))
+		return bits[i].col < bits[j].col
+	})
+	for _, b := range bits {
+		if _, err := ref.setBit(b.row, b.col); err != nil {
+			panic(err)
+		}
 	}
-	return sb.String()
+	out := c10Blocks(ref)
+	// the same contents must always give the same checksum, different contents different ones
+	for _, blk := range ref.Blocks() {
+		var cont strings.Builder
+		for _, b := range bits {
+			if int(b.row/HashBlockSize) == blk.ID {
+				fmt.Fprintf(&cont, "%d:%d,", b.row%HashBlockSize, b.col)
+			}
+		}
+		sum := fmt.Sprintf("%x", blk.Checksum)
+		c10RefMu.Lock()
+		if prev, ok := c10SumOwner[sum]; ok && prev != cont.String() {
+			out += fmt.Sprintf("COLLISION(block %d: contents %q and %q share checksum %s) ", blk.ID, prev, cont.String(), sum)
+		}
+		c10SumOwner[sum] = cont.String()
+		c10RefMu.Unlock()
+	}
+	vxDiscardFragment(ref)
+	c10RefMu.Lock()
+	c10RefCache[key] = out
+	c10RefMu.Unlock()
+	return out
 }
 
 func c10Blocks(f *fragment) string {
@@ -268,19 +305,22 @@ func TestVerif_C10(t *testing.T) {
 		kind   string
 		maxOpN int
 		warm   bool
+		cache  string // "" = the default (ranked) count cache; "none": write paths that skip cache updates
 	}
 	cfgs := []cfg{
-		{"set-warm", vxKindSet, 0, true},
-		{"set-explicit", vxKindSet, 0, false},
-		{"set-opn2-warm", vxKindSet, 2, true},
-		{"mutex-warm", vxKindMutex, 0, true},
-		{"bsi-warm", vxKindBSI, 0, true},
-		{"bsi-opn2-warm", vxKindBSI, 2, true},
+		{"set-warm", vxKindSet, 0, true, ""},
+		{"set-explicit", vxKindSet, 0, false, ""},
+		{"set-opn2-warm", vxKindSet, 2, true, ""},
+		{"set-nocache-warm", vxKindSet, 0, true, CacheTypeNone},
+		{"set-lru-warm", vxKindSet, 0, true, CacheTypeLRU},
+		{"mutex-warm", vxKindMutex, 0, true, ""},
+		{"bsi-warm", vxKindBSI, 0, true, ""},
+		{"bsi-opn2-warm", vxKindBSI, 2, true, ""},
 	}
 	for _, cf := range cfgs {
 		cf := cf
 		h := &vx.Harness{Alphabet: c10Alphabet(cf.kind, cf.warm), Key: c10Key(cf.name), MultiProcess: true, New: func() vx.Instance {
-			return &c10Inst{f: vxOpenFragment(cf.kind, 0, cf.maxOpN, "", false), kind: cf.kind, warm: cf.warm, model: map[vxBit]bool{}, depth: 3}
+			return &c10Inst{f: vxOpenFragment(cf.kind, 0, cf.maxOpN, cf.cache, false), kind: cf.kind, warm: cf.warm, model: map[vxBit]bool{}, depth: 3}
 		}}
 		c.WithBudget(float64(c.Pick(12, 150)), func() {
 			c.RunDFS(h, c.Pick(2, 3))
@@ -290,7 +330,7 @@ func TestVerif_C10(t *testing.T) {
 		fmt.Printf("INFO C10 config=%s alphabet=%d evals=%d\n", cf.name, len(h.Alphabet), c.Evaluations)
 	}
 	c.AddValidated(c.Evaluations)
-	c.Assume("xxhash64 collisions are ignored ('up to hash collisions' in the statement); rows 0/1 (block 0) and 100 (block 1), 2 columns in 2 containers")
+	c.Assume("the reference is the code's own Blocks() on a clean fragment with the same bits (a bug that makes Blocks() wrong in the same way on every fragment is outside this check); rows 0/1 (block 0) and 100 (block 1), 2 columns in 2 containers")
 	if c.Finish() != 0 {
 		t.Fail()
 	}
